@@ -109,7 +109,7 @@ def main():
         chk.oblig('translator: constants read from the sources equal the constants of the compiled code', False, repr(e))
         chk.violation('constant comparison failed: %r' % e, {'kind': 'translator'}, found_input=False)
     # source-shape inventories the model's assumptions rest on
-    for invname, props in (('nondeterminism', ('C19',)), ('board_mutators', ('C10',)), ('control_shape', ('C04', 'C07'))):
+    for invname, props in (('nondeterminism', ('C19',)), ('board_mutators', ('C10',)), ('control_shape', ('C04', 'C07')), ('lock_shape', ('C15', 'C03', 'C06', 'C19'))):
         if prop in props:
             inv = json.load(open(f'{VERIF}/inventories/{invname}.json'))
             ep = f'{VERIF}/tools/{invname}_expected.json'
